@@ -1,10 +1,12 @@
 import Monorail.Driver.C10
+import Monorail.Driver.C01
 open Lean Monorail.Driver
 
 def dispatch (j : Json) : Except String Json := do
   let op ← getStr j "op"
   match op with
   | "c10" => handleC10 j
+  | "c01" => handleC01 j
   | "ping" => pure (Json.mkObj [("pong", true)])
   | _ => throw s!"unknown op {op}"
 
